@@ -77,7 +77,6 @@ Section Core.
     | Guarded g it' => guard_true st g = true -> item_ok st it'
     | AutoStationary => True
     | LMI l entry => lmi_ok (lmi_of st l entry)
-    | CrossEq f => forall si sj, In si (f_points st) -> In sj (f_tpoints st) -> holds rho phi (inst st f si sj)
     | BlockPairs _ f =>
         forall si sj k, In si (f_points st) -> In sj (f_points st) -> (k < f_nblocks st)%nat ->
                         holds rho phi (instB st f k si sj)
@@ -85,21 +84,20 @@ Section Core.
 
   Lemma item_ok_src st it c : item_ok st it -> item_src st it c -> holds rho phi (c_obj c).
   Proof.
-    induction it as [l1 l2 cname f sym|l cname f|g it IH| |l entry|f|cprefix f]; cbn [item_ok item_src].
+    induction it as [l1 l2 cname f sym|l cname f|g it IH| |l entry|cprefix f]; cbn [item_ok item_src].
     - intros H (i & j & si & sj & Hi & Hj & _ & ->). cbn [c_obj].
       apply H; eapply nth_error_In; eassumption.
     - intros H (i & si & Hi & ->). cbn [c_obj]. apply H. eapply nth_error_In; eassumption.
     - intros H [Hg Hs]. exact (IH (H Hg) Hs).
     - intros _ [].
     - intros _ [].
-    - intros H (si & sj & Hi & Hj & ->). cbn [c_obj]. apply H; assumption.
     - intros H (i & j & k & si & sj & Hi & Hj & _ & Hk & ->). cbn [c_obj].
       apply H; [eapply nth_error_In; eassumption|eapply nth_error_In; eassumption|exact Hk].
   Qed.
 
   Lemma item_ok_lmi_src st it m : item_ok st it -> item_lmi_src st it m -> lmi_ok m.
   Proof.
-    induction it as [l1 l2 cname f sym|l cname f|g it IH| |l entry|f|cprefix f];
+    induction it as [l1 l2 cname f sym|l cname f|g it IH| |l entry|cprefix f];
       cbn [item_ok item_lmi_src]; try solve [intros _ []].
     - intros H [Hg Hs]. exact (IH (H Hg) Hs).
     - intros H ->. exact H.
